@@ -26,7 +26,8 @@ M64 = (1 << 64) - 1
 RULE = ("operation histories (insert, plan/plan_prehashed+insert_at, find, find_record, remove, find+erase, size, "
         "iterate) x 5 hash functions (constant, identity, k mod 4, multiplicative, one yielding codes 0 and 0xDEAD) x key "
         "offset {0,8,24} x allocation fail scripts; random histories over small key universes, model-directed "
-        "steady-state churn between the shrink and grow thresholds, plan/insert_at pairs, exhaustive short histories "
+        "steady-state churn between the shrink and grow thresholds, plan/insert_at pairs, insertions planned for a reused "
+        "tombstone whose grow allocation fails, exhaustive short histories "
         "(thorough); non-trivial = the history contains a successful insertion followed later by a removal or a look-up; "
         "distinct = distinct case strings")
 ASSUMPTIONS = [
@@ -68,6 +69,7 @@ class Mini:
         return sum(1 for e in self.slots if e is None)
 
     def alloc(self):
+        self.requests = getattr(self, "requests", 0) + 1
         return self.script.pop(0) != "0" if self.script else True
 
     def probe(self, key, code):
@@ -419,6 +421,80 @@ def with_faults(r, case, how_many):
     return out
 
 
+def gen_failgrow(r, kind, off, target_n):
+    """the insertion that has to grow the table is planned for a reused tombstone with live records behind it, and
+    exactly that grow allocation fails: the slot must go back to being a tombstone (not Empty), or the records behind
+    it become unreachable.  Afterwards every live key is looked up, re-inserted (EXISTS) and the table iterated."""
+    ids, ops = Ids(), []
+    m = Mini(kind)
+    keyspace = 1 << 16 if kind in ("mult", "id", "special") else 4096
+    seq = [r.randrange(64)]
+
+    def fresh(pred):
+        for _ in range(400):
+            k = r.randrange(keyspace) if r.random() < 0.5 else seq[0]
+            seq[0] += 1
+            if k not in m.live and pred(k):
+                return k
+        return None
+
+    def ins(k):
+        rid = ids.new()
+        m.insert(k, rid)
+        ops.append("I%d.%d" % (k, rid))
+
+    while m.n < target_n or m.count + 2 < m.n // 2 + m.n // 8:
+        k = fresh(lambda k: True)
+        if k is None:
+            return None
+        ins(k)
+    if m.n != target_n:
+        return None
+    # a victim with a live record behind it on some probe path: the next slot is occupied
+    victims = [k for k in m.live_keys()
+               if m.slots[(m.lookup(k) + 1) & (m.n - 1)] not in (None, "T")]
+    if not victims or m.would_shrink_on_remove():
+        return None
+    v = r.choice(victims)
+    hole = m.lookup(v)
+    m.remove(v)
+    ops.append("%s%d" % (r.choice("RE"), v))
+    # back to one below the load limit without touching the tombstone
+    while not m.would_rehash_on_insert():
+        k = fresh(lambda k: m.plan(k) != hole)
+        if k is None:
+            return None
+        ins(k)
+    if m.slots[hole] != "T":
+        return None
+    k = fresh(lambda k: m.plan(k) == hole)
+    if k is None:
+        return None
+    script = "1" * getattr(m, "requests", 0) + "0"
+    if r.random() < 0.3:
+        ops += ["%s%d" % (r.choice("PQ"), k), "A%d.%d" % (k, ids.new())]
+    else:
+        ops.append("I%d.%d" % (k, ids.new()))
+    for kk in m.live_keys():
+        ops.append("%s%d" % (r.choice("FG"), kk))
+    ops += ["T", "Z"]
+    for kk in r.sample(m.live_keys(), min(3, len(m.live))):
+        ops.append("I%d.%d" % (kk, ids.new()))          # EXISTS
+    ops += ["I%d.%d" % (k, ids.new()), "F%d" % k, "T", "Z"]     # memory is back: the insertion succeeds now
+    return "%s %d %s %s" % (kind, off, script, " ".join(ops))
+
+
+def failgrow_cases(r, per):
+    out = []
+    for kind in HFS:
+        for tn in (8, 16, 32):
+            for _ in range(per):
+                c = gen_failgrow(r, kind, r.choice(OFFS), tn)
+                if c:
+                    out.append(c)
+    return out
+
+
 def gen(ctx, seed, tier):
     r = ctx.rng("gen", seed)
     cases = []
@@ -441,6 +517,7 @@ def gen(ctx, seed, tier):
             for off in (OFFS if not quick else [r.choice(OFFS)]):
                 for _ in range(2):
                     cases.append(gen_fill(r, kind, off, tn, r.randint(2, 6)))
+    cases += failgrow_cases(r, 3 if quick else 12)
     base = [gen_random(r, k, o, 40, 12) for k in HFS for o in (8,)]
     if not quick:
         base += [gen_random(r, k, o, r.randint(30, 120), r.choice([12, 24, 48])) for k in HFS for o in OFFS for _ in range(4)]
@@ -481,6 +558,7 @@ def targeted(ctx):
                 out.append(gen_fill(r, kind, off, tn, r.randint(3, 12)))
             b = gen_random(r, kind, off, 60, 12)
             out += with_faults(r, b, 6)
+    out += failgrow_cases(r, 6)
     return out
 
 
